@@ -56,22 +56,53 @@ func spellLit(rng *rand.Rand, v *big.Int, base int, seps bool) string {
 	return s
 }
 
+// litParts returns the top-level declarations and the statements that leave the literal's value in
+// variable x<k> (of the literal's type) for one position.
+func litParts(lc litCase, k int) (decls, stmts string) {
+	t := lc.ty.name
+	x := fmt.Sprintf("x%d", k)
+	switch lc.pos {
+	case "arg":
+		return fmt.Sprintf("fn id%d(v: %s) -> %s {\n    return v;\n}\n\n", k, t, t), fmt.Sprintf("    let %s := id%d(%s);\n", x, k, lc.spell)
+	case "return":
+		return fmt.Sprintf("fn lit%d() -> %s {\n    return %s;\n}\n\n", k, t, lc.spell), fmt.Sprintf("    let %s := lit%d();\n", x, k)
+	case "assign":
+		return "", fmt.Sprintf("    let %s: %s = 0;\n    %s = %s;\n", x, t, x, lc.spell)
+	case "compound":
+		return "", fmt.Sprintf("    let %s: %s = 0;\n    %s += %s;\n", x, t, x, lc.spell)
+	case "binary":
+		return "", fmt.Sprintf("    let z%d: %s = 0;\n    let %s := z%d + %s;\n", k, t, x, k, lc.spell)
+	case "field":
+		return fmt.Sprintf("type LB%d struct { .F: %s };\n\n", k, t), fmt.Sprintf("    let b%d: LB%d = { .F = %s };\n    let %s := b%d.F;\n", k, k, lc.spell, x, k)
+	case "array-elem":
+		return "", fmt.Sprintf("    let a%d: [2]%s = [0, %s];\n    let %s := a%d[1];\n", k, t, lc.spell, x, k)
+	case "dyn-elem":
+		return "", fmt.Sprintf("    let a%d: []%s = [%s];\n    let %s := a%d[0];\n", k, t, lc.spell, x, k)
+	case "elem-assign":
+		return "", fmt.Sprintf("    let a%d: []%s = [0];\n    a%d[0] = %s;\n    let %s := a%d[0];\n", k, t, k, lc.spell, x, k)
+	case "const":
+		return "", fmt.Sprintf("    const c%d: %s = %s;\n    let %s := c%d;\n", k, t, lc.spell, x, k)
+	case "catch-fallback":
+		return fmt.Sprintf("fn res%d() -> str ! %s {\n    return \"e\"!;\n}\n\n", k, t), fmt.Sprintf("    let %s := res%d() catch %s;\n", x, k, lc.spell)
+	}
+	return "", fmt.Sprintf("    let %s: %s = %s;\n", x, t, lc.spell)
+}
+
+// c10ExtraPositions go beyond the three the property names (initialiser, argument, return): the
+// same exactness is demanded wherever a literal meets a declared integer type.
+var c10ExtraPositions = []string{"assign", "compound", "binary", "field", "array-elem", "dyn-elem", "elem-assign", "const", "catch-fallback"}
+
 func litProgram(lc litCase, print bool) string {
 	var sb strings.Builder
 	if print {
 		sb.WriteString("import \"std/io\";\n\n")
 	}
-	t := lc.ty.name
-	switch lc.pos {
-	case "arg":
-		fmt.Fprintf(&sb, "fn id(v: %s) -> %s {\n    return v;\n}\n\nfn main() {\n    let x := id(%s);\n", t, t, lc.spell)
-	case "return":
-		fmt.Fprintf(&sb, "fn lit() -> %s {\n    return %s;\n}\n\nfn main() {\n    let x := lit();\n", t, lc.spell)
-	default:
-		fmt.Fprintf(&sb, "fn main() {\n    let x: %s = %s;\n", t, lc.spell)
-	}
+	d, st := litParts(lc, 0)
+	sb.WriteString(d)
+	sb.WriteString("fn main() {\n")
+	sb.WriteString(st)
 	if print {
-		sb.WriteString("    io::Println(x);\n")
+		sb.WriteString("    io::Println(x0);\n")
 	}
 	sb.WriteString("}\n")
 	return sb.String()
@@ -150,6 +181,15 @@ func genLitCases(c *Ctx) []litCase {
 						}
 					}
 				}
+				// one further position per literal (all of them in thorough)
+				for q, p2 := range c10ExtraPositions {
+					if quick && q != idx%len(c10ExtraPositions) {
+						continue
+					}
+					l2 := lc
+					l2.pos = p2
+					out = append(out, l2)
+				}
 			}
 		}
 	}
@@ -183,7 +223,7 @@ func (lc litCase) id(i int, seed int64) string {
 
 func checkC10(c *Ctx) error {
 	r := c.R
-	r.Rule = "integer literals (decimal/0x/0o/0b, optional '_' separators, optional leading '-') at values min-1,min,min+1,-1,0,1,max-1,max,max+1, 2^k+-1 and random magnitudes up to 2^300 for each of the 12 integer types, in positions typed let / argument / return; each is one program type-checked by the real compiler (accept must equal math/big range test), and every accepted literal is printed by a native executable (and by the wasm module for <=64-bit types) and compared with the value; non-trivial = a distinct (type, spelling, position) whose verdict was decided"
+	r.Rule = "integer literals (decimal/0x/0o/0b, optional '_' separators, optional leading '-') at values min-1,min,min+1,-1,0,1,max-1,max,max+1, 2^k+-1 and random magnitudes up to 2^300 for each of the 12 integer types, in positions typed let / argument / return and, beyond the three positions the property names, assignment, compound assignment, binary operand, struct field, fixed/dynamic array element, element assignment, const initialiser and catch fallback; each is one program type-checked by the real compiler (accept must equal math/big range test), and every accepted literal is printed by a native executable (and by the wasm module for <=64-bit types) and compared with the value; non-trivial = a distinct (type, spelling, position) whose verdict was decided"
 	r.Assumptions = []string{"decimal spellings with a leading zero are not generated (base undefined by the language)", "'-' directly precedes the digits (the lexer's number token carries the sign)"}
 	cases := genLitCases(c)
 	tcs := make([]TC, len(cases))
@@ -271,30 +311,16 @@ func checkC10(c *Ctx) error {
 		batches = append(batches, accepted[i:j])
 	}
 	build := func(idxs []int) string {
-		var sb strings.Builder
+		var sb, body strings.Builder
 		sb.WriteString("import \"std/io\";\n\n")
 		for k, ci := range idxs {
-			lc := cases[ci]
-			switch lc.pos {
-			case "arg":
-				fmt.Fprintf(&sb, "fn id%d(v: %s) -> %s {\n    return v;\n}\n\n", k, lc.ty.name, lc.ty.name)
-			case "return":
-				fmt.Fprintf(&sb, "fn lit%d() -> %s {\n    return %s;\n}\n\n", k, lc.ty.name, lc.spell)
-			}
+			d, st := litParts(cases[ci], k)
+			sb.WriteString(d)
+			body.WriteString(st)
+			fmt.Fprintf(&body, "    io::Println(x%d);\n", k)
 		}
 		sb.WriteString("fn main() {\n")
-		for k, ci := range idxs {
-			lc := cases[ci]
-			switch lc.pos {
-			case "arg":
-				fmt.Fprintf(&sb, "    let x%d := id%d(%s);\n", k, k, lc.spell)
-			case "return":
-				fmt.Fprintf(&sb, "    let x%d := lit%d();\n", k, k)
-			default:
-				fmt.Fprintf(&sb, "    let x%d: %s = %s;\n", k, lc.ty.name, lc.spell)
-			}
-			fmt.Fprintf(&sb, "    io::Println(x%d);\n", k)
-		}
+		sb.WriteString(body.String())
 		sb.WriteString("}\n")
 		return sb.String()
 	}
@@ -350,7 +376,7 @@ func checkC10(c *Ctx) error {
 	// wasm: only types the wasm back end supports (<= 64 bits)
 	var wasmIdx []int
 	for _, ci := range accepted {
-		if cases[ci].ty.bits <= 64 {
+		if cases[ci].ty.bits <= 64 && cases[ci].pos != "catch-fallback" { // the wasm back end has no results
 			wasmIdx = append(wasmIdx, ci)
 		}
 	}
